@@ -61,11 +61,13 @@ pub struct WalkCfg {
     pub sort_names: bool,
     /// ".myignore" registered as a custom ignore file name (ignore files of the tree carry that name).
     pub custom_ignore: bool,
+    /// parents(true): ignore files of the ancestors of a root apply below it.
+    pub parents: bool,
 }
 
 impl Default for WalkCfg {
     fn default() -> WalkCfg {
-        WalkCfg { threads: 2, max_depth: None, max_filesize: None, follow_links: false, same_file_system: false, filter_char: None, ignore_files: false, hidden: false, override_glob: None, type_x: false, sort_names: false, custom_ignore: false }
+        WalkCfg { threads: 2, max_depth: None, max_filesize: None, follow_links: false, same_file_system: false, filter_char: None, ignore_files: false, hidden: false, override_glob: None, type_x: false, sort_names: false, custom_ignore: false, parents: false }
     }
 }
 
@@ -75,7 +77,7 @@ impl WalkCfg {
             "threads": self.threads, "max_depth": self.max_depth, "max_filesize": self.max_filesize,
             "follow_links": self.follow_links, "same_file_system": self.same_file_system,
             "filter_char": self.filter_char.map(|c| c.to_string()), "ignore_files": self.ignore_files, "hidden": self.hidden,
-            "override_glob": self.override_glob, "type_x": self.type_x, "sort_names": self.sort_names, "custom_ignore": self.custom_ignore,
+            "override_glob": self.override_glob, "type_x": self.type_x, "sort_names": self.sort_names, "custom_ignore": self.custom_ignore, "parents": self.parents,
         })
     }
     pub fn from_json(v: &Value) -> WalkCfg {
@@ -92,6 +94,7 @@ impl WalkCfg {
             type_x: v["type_x"].as_bool().unwrap_or(false),
             sort_names: v["sort_names"].as_bool().unwrap_or(false),
             custom_ignore: v["custom_ignore"].as_bool().unwrap_or(false),
+            parents: v["parents"].as_bool().unwrap_or(false),
         }
     }
 }
